@@ -73,6 +73,18 @@ Definition pf_spec_ok (c : pf_case) : bool :=
       end
   end.
 
+(** 4b. CodeQLLocation.from_sarif: observed (start line, start column, end line, end column), None when a column is None *)
+Definition cq_case := (option region * option (Z * Z * (Z * Z)))%type.
+Definition cq_model_ok (c : cq_case) : bool :=
+  let '(r, obs) := c in
+  match codeql_loc codeql_start_column [] r, obs with
+  | Some l, Some (a, b, (c', d)) => (pline (lstart l) =? a) && (pcol (lstart l) =? b) && (pline (lend l) =? c') && (pcol (lend l) =? d)
+  | None, None => true
+  | _, _ => false
+  end.
+(** spec: a region always denotes a location (SARIF: startColumn defaults to 1) *)
+Definition cq_spec_ok (c : cq_case) : bool := match snd c with Some _ => true | None => false end.
+
 (** 5. end to end (real CLI): a program with candidate nodes, the open results of the result file, observed rewrites *)
 Record e2e_case := mke2e {
   e_ovr : filter_override;
